@@ -832,6 +832,10 @@ v('C04', 'fire', E, '(-util.skew_matrix(rho_n + Omega_n) +', '(-util.skew_matrix
 # ---------------------------------------------------------------- refactorings (fifth session)
 # Behaviour-preserving refactorings written by sub-agents that saw nothing of /verif (each comes
 # with an equivalence demonstration against the original on random inputs); must stay silent.
+vp('C01 C02 C03 C04 C12 C13 C16 C17', 'silent', 'refactors/R01.diff',
+   'strapdown kernel: jitted helpers extracted, n/e/d component names, named threshold, hoisted reads')
+vp('C06 C09 C10 C11 C13', 'silent', 'refactors/R11.diff',
+   'measurements: availability / attitude / component-selection helpers, lever arm read once')
 vp('C01 C02 C13 C15', 'silent', 'refactors/R04.diff',
    'compute_increments_from_imu: helpers extracted, to_numpy, np.newaxis, np.concatenate, module constants')
 
